@@ -212,24 +212,29 @@ def walkUp (p : NProg) (column : Nat) : Nat → Nat → Except Err Nat
         | none => .error .internal     -- `None.type` would raise AttributeError
         | some c' => walkUp p column fuel c'
 
-/-- the context before the indentation loop -/
+/-- the header rule of `get_context`: `n = leaf.search_ancestor('funcdef', 'classdef')` and
+`n.start_pos < pos <= n.children[-1].start_pos` -/
+def headerOf (p : NProg) (pos : Pos) (l : Leaf) : Option Nat :=
+  match defFrom p p.fuel l.pscope with
+  | none => none
+  | some n =>
+    match p.scopes[n]? with
+    | none => none
+    | some sc => if sc.start < pos ∧ pos ≤ sc.suite then some n else none
+
+/-- the context of the chosen leaf before the indentation loop, comprehension contexts skipped -/
+def contextOfLeaf (p : NProg) (pos : Pos) (l : Leaf) : Nat :=
+  match headerOf p pos l with
+  | some n => n                                      -- create_value(n).as_context()
+  | none => skipComps p p.fuel (createContext p l.start l.pscope l.isParamName)
+
 def contextAt (p : NProg) (pos : Pos) : Except Err Nat :=
   match chooseLeaf p pos with
   | .error e => .error e
   | .ok i =>
     match p.leaves[i]? with
     | none => .error .internal
-    | some l =>
-      let headerOf : Option Nat :=
-        match defFrom p p.fuel l.pscope with
-        | none => none
-        | some n =>
-          match p.scopes[n]? with
-          | none => none
-          | some sc => if sc.start < pos ∧ pos ≤ sc.suite then some n else none
-      match headerOf with
-      | some n => .ok n                                  -- create_value(n).as_context()
-      | none => .ok (skipComps p p.fuel (createContext p l.start l.pscope l.isParamName))
+    | some l => .ok (contextOfLeaf p pos l)
 
 /-- `Script.get_context(line, column)`: the scope whose name is returned -/
 def getContext (p : NProg) (pos : Pos) : Except Err Nat :=
@@ -313,6 +318,16 @@ def fullNameOfScope (mapping : List (String × String)) (p : NProg) (c : Nat) : 
     | _, _ => none
 
 /-! ## Python side -/
+
+/-- the `def` / `class` scopes on the `parent_scope` chain from `s` (inclusive), innermost first:
+the lexically enclosing definitions as the tree sees them -/
+def defChain (p : NProg) : Nat → Nat → List Nat
+  | 0, _ => []
+  | fuel + 1, s =>
+    match p.kind s with
+    | .module => []
+    | .function | .klass => s :: defChain p fuel (p.pscope s)
+    | _ => defChain p fuel (p.pscope s)
 
 /-- the `def` / `class` statement `s` contains `pos`: after the first character of its keyword,
 up to the end of its last line -/
